@@ -101,7 +101,8 @@ def gen_config(rng, small=False):
     if rng.random() < 0.3:
         c_ = rng.randint(0, nC - 1)
         bolSet = [rng.choice(allids + [77]), c_, rng.randint(0, bs[c_] if c_ < len(bs) else 0)]
-    return {"bolSet": bolSet, "avail": avail, "kinds": kinds, "truthyAll": truthy, "detailed": detailed, "nCycles": nC, "burnSteps": bs, "startCycle": sc, "startNode": sn,
+    spelling = "".join(rng.choice("isf") for _ in skip)
+    return {"skipSpelling": spelling, "bolSet": bolSet, "avail": avail, "kinds": kinds, "truthyAll": truthy, "detailed": detailed, "nCycles": nC, "burnSteps": bs, "startCycle": sc, "startNode": sn,
             "stack": stack, "deferred": deferred, "deferredCycle": defCycle, "coupling": coupling,
             "maxIters": maxIters, "skip": skip, "halt": halt, "conv": conv}
 
@@ -214,12 +215,23 @@ def rec_classes():
     return _classes
 
 
+def spell_skip(cfg):
+    """The exempt-cycle list as a user may spell it: the setting has no schema and the code converts every entry with
+    int(), so 1, '1' and 1.0 all exempt cycle 1. `skipSpelling` gives one spelling per entry (i = int, s = str, f = float)."""
+    sp = cfg.get("skipSpelling") or ""
+    out = []
+    for k, c in enumerate(cfg["skip"]):
+        how = sp[k] if k < len(sp) else "i"
+        out.append(str(c) if how == "s" else float(c) if how == "f" else int(c))
+    return out
+
+
 def cs_overrides(cfg):
     over = {"nCycles": cfg["nCycles"], "startCycle": 0, "startNode": 0,
             "deferredInterfacesCycle": cfg["deferredCycle"],
             "deferredInterfaceNames": [name_of(i) for i in cfg["deferred"]],
             "tightCoupling": bool(cfg["coupling"]), "tightCouplingMaxNumIters": cfg["maxIters"],
-            "cyclesSkipTightCouplingInteraction": list(cfg["skip"]), "db": False,
+            "cyclesSkipTightCouplingInteraction": spell_skip(cfg), "db": False,
             "detailAssemLocationsBOL": []}
     if cfg["detailed"]:
         kinds = cfg.get("kinds") or ["days"] * len(cfg["burnSteps"])
@@ -447,6 +459,8 @@ def section_runs(ctx):
                                (bool(cfg["halt"]), "halting interface"), (bool(cfg["deferred"]), "deferred names"),
                                (cfg["startCycle"] or cfg["startNode"], "restart point"),
                                (bool(cfg.get("bolSet")), "restart point set inside a BOL hook"),
+                               (cfg["coupling"] and cfg["skip"] and set(cfg.get("skipSpelling") or "") - {"i"},
+                                "exempt cycles spelled as strings / floats"),
                                (cfg["coupling"] and sum(1 for x in cfg["stack"] if x["coupler"]) >= 2,
                                 "two or more couplers on one parameter name"),
                                (0 in cfg["burnSteps"], "zero burn steps")):
@@ -524,6 +538,9 @@ def directed_configs():
     out.append(dict(cbase, stack=cst3, maxIters=4,
                     conv=[[1, c, n, it] for (c, n) in nodes for it in range(4)] + [[3, c, n, it] for (c, n) in nodes for it in range(4)]
                     + [[2, c, n, 2] for (c, n) in nodes]))                       # the MIDDLE one decides: 3 iterations
+    never = dict(cbase, conv=[], maxIters=3, nCycles=3, burnSteps=[1, 1, 1])     # no convergence: 3 iterations where not exempt
+    for skip, sp in (([1], "s"), ([1], "f"), ([1], "i"), ([0, 2], "sf"), ([0, 1, 2], "sif"), ([2, 0], "fs")):
+        out.append(dict(never, skip=skip, skipSpelling=sp))
     for a in (0.0, 1.0, 0.5):
         out.append(dict(base, stack=plain_stack(2), halt=[], avail=a))
         out.append(dict(base, stack=plain_stack(2), halt=[], avail=a, nCycles=1, burnSteps=[3]))
